@@ -27,9 +27,15 @@ PROPERTY = "C16"
 LEVEL = "exploration"
 
 
-def side_effects(world, mark):
+def side_effects(world, mark, skip_src_until=None):
+    """set/delete/data-chunk-read events after mark; events before skip_src_until that hit a 'src*' store are the
+    harness creating its own Zarr inputs and are not counted"""
     bad = []
-    for ev in world.events(mark):
+    evs = list(world.events(mark))
+    n_own = (skip_src_until - mark) if skip_src_until is not None else 0
+    for k, ev in enumerate(evs):
+        if k < n_own and ev.store.startswith("src"):
+            continue
         if ev.op in ("set", "delete"):
             bad.append(f"{ev.op} {ev.store}:{ev.key}")
         elif ev.op == "get" and is_chunk_key(ev.key):
@@ -53,8 +59,9 @@ def eval_case(case, seed, tier):
             spec = cubed.Spec(intermediate_store=w.store("inter"), allowed_mem=4_000_000, reserved_mem=0, executor=ex)
             c2 = dict(case, params=dict(case["params"], **({"src": src} if src else {})))
             ns = np_inputs(case, seed)
+            mark0 = w.mark()
             try:
-                xs = cubed_inputs(c2, ns, spec, w)  # creating a Zarr *input* writes the harness's own source store
+                xs = cubed_inputs(c2, ns, spec, w)  # creating a Zarr *input* writes the harness's own source store ('src*'), nothing else
             except Exception:
                 cnt["declined"] += 1
                 continue
@@ -97,7 +104,7 @@ def eval_case(case, seed, tier):
             found = []
             if ex.entered:
                 found.append(("executed-while-lazy", f"an executor was entered during {stages[-1] if stages else 'build'}+"))
-            eff = side_effects(w, mark)
+            eff = side_effects(w, mark0, skip_src_until=mark)
             if eff:
                 found.append(("storage-side-effect", f"storage touched while only building/planning (after stage {stages[-1] if stages else 'start'}): {eff[:3]}"))
             for k, t in found:
@@ -146,6 +153,14 @@ def eager_entry_points(_):
         "rechunk": lambda a, s, w: a.rechunk((1,)),
         "negative": lambda a, s, w: xp.negative(a + a),
         "blocks": lambda a, s, w: a.blocks[0],
+        # wrapping in-memory data of any size is construction, not execution: nothing may reach a store
+        "from_array-small": lambda a, s, w: cubed.from_array(np.ones((4, 5)), chunks=(2, 5), spec=s),
+        "from_array-2MB": lambda a, s, w: xp.negative(cubed.from_array(np.ones((500, 500)), chunks=(100, 500), spec=s)),
+        "from_array-above-allowed_mem": lambda a, s, w: cubed.from_array(np.ones((1000, 600)), chunks=(100, 600), spec=s),
+        "asarray-2MB": lambda a, s, w: xp.negative(xp.asarray(np.ones((500, 500)), chunks=(100, 500), spec=s)),
+        "asarray-above-allowed_mem": lambda a, s, w: xp.asarray(np.ones((1000, 600)), chunks=(100, 600), spec=s),
+        "asarray-of-array-with-dtype": lambda a, s, w: xp.asarray(a, dtype=xp.float32),
+        "astype": lambda a, s, w: xp.astype(a, xp.int32),
     }
     for name, f in list(eager.items()) + list(lazy.items()):
         w, ex, spec = fresh()
@@ -170,6 +185,11 @@ def eager_entry_points(_):
                 continue
             try:
                 f(a, spec, w)
+            except (ValueError, TypeError, NotImplementedError) as e:
+                if name in eager:
+                    probs.append((dict(kind="entry-point-error", entry=name), f"{name} raised {type(e).__name__}: {e}"))
+                    continue
+                # a lazy construction may be declined explicitly (e.g. in-memory data above the size limit); it still must leave nothing behind
             except Exception as e:
                 probs.append((dict(kind="entry-point-error", entry=name), f"{name} raised {type(e).__name__}: {e}"))
                 continue
